@@ -146,3 +146,10 @@ Theorem C16_chain_past_any_refuted : g_chain_ends_at_any = false ->
 Proof. exact chain_past_any_refuted. Qed.
 Print Assumptions C16_chain_past_any_refuted.
 
+
+(* ---- before fix 5a15038 (F-LOOKUP-DANGLING-LINK) ----
+   type_to_template indexed every name FileSystemLoader.list_templates() returned, including dangling links: user dir
+   {CompositeType.j2, StructureType.j2 -> /nonexistent}, FIND_FIRST, lookup StructureType chose StructureType.j2 and get_source raised
+   TemplateNotFound (property: CompositeType.j2).  There was no Coq statement: such names were outside the model (its listings are
+   listings of loadable files); since the fix the code's index is built from loadable files too (g_index_checks_loadable, required
+   by C16_fix_state) and the dangling-link cases of the check are compared with the model like all others. *)
